@@ -16,6 +16,7 @@ import (
 	"time"
 
 	netty "github.com/go-netty/go-netty"
+	"github.com/go-netty/go-netty/transport"
 	"github.com/go-netty/go-netty/utils/pool/pbuffer"
 	"github.com/go-netty/go-netty/utils/pool/pbytes"
 	"pgregory.net/rapid"
@@ -43,7 +44,9 @@ type C12Case struct {
 }
 
 var c12Ops = map[string][]string{
-	"sync":      {"write1", "writev", "ctxwrite1", "ctxwritev", "writerwrite", "readfrom", "write", "trigger", "close", "isactive", "context", "inbound"},
+	"sync": {"write1", "writev", "ctxwrite1", "ctxwritev", "writerwrite", "readfrom", "write", "trigger", "close", "isactive", "context", "inbound"},
+	// a channel whose pipeline has no exception handler of its own: exceptions reach the built-in tail handler
+	"bare":      {"badwrite", "badwrite", "write1", "trigger", "isactive"},
 	"qblock":    {"write1", "writev", "ctxwrite1", "ctxwritev", "writerwrite", "readfrom", "write", "trigger", "close", "isactive", "context", "inbound"},
 	"qnonblock": {"write1", "writev", "ctxwrite1", "ctxwritev", "writerwrite", "readfrom", "write", "trigger", "close", "isactive", "context", "inbound"},
 	"bootstrap": {"listen-async", "listener-close", "shutdown", "connect", "inbound", "context"},
@@ -55,10 +58,10 @@ var c12Ops = map[string][]string{
 
 var c12Mutating = map[string]bool{"close": true, "shutdown": true, "listener-close": true, "closeall": true, "listen-async": true, "connect": true,
 	"open-channel": true, "close-channel": true, "write1": true, "writev": true, "ctxwrite1": true, "ctxwritev": true, "writerwrite": true,
-	"readfrom": true, "write": true, "inbound": true, "bytes-get-put": true, "buffer-get-put": true, "bytes-put-foreign": true, "trigger": true}
+	"readfrom": true, "write": true, "badwrite": true, "inbound": true, "bytes-get-put": true, "buffer-get-put": true, "bytes-put-foreign": true, "trigger": true}
 
 func genC12Prog(t *rapid.T) C12Prog {
-	p := C12Prog{Target: rapid.SampledFrom([]string{"sync", "qblock", "qblock", "qnonblock", "bootstrap", "bootstrap", "tcp", "holder", "idle", "pool"}).Draw(t, "target")}
+	p := C12Prog{Target: rapid.SampledFrom([]string{"sync", "qblock", "qblock", "qnonblock", "bootstrap", "bootstrap", "tcp", "holder", "idle", "pool", "bare"}).Draw(t, "target")}
 	ops := c12Ops[p.Target]
 	ng := rapid.IntRange(2, 4).Draw(t, "ng")
 	for g := 0; g < ng; g++ {
@@ -260,6 +263,8 @@ type c12Env struct {
 	nextID  int64
 	port    int
 	cleanup []func()
+	// opts: one option slice with spare capacity that every Connect/Listen of the program passes on (opts...)
+	opts []transport.Option
 }
 
 func c12Pipeline(ch netty.Channel, extra ...netty.Handler) {
@@ -295,12 +300,24 @@ func newC12Env(p C12Prog) *c12Env {
 	case "sync", "qblock", "qnonblock":
 		e.ch, e.tr = newCh(p.Target)
 		e.ch.Pipeline().ServeChannel(e.ch)
+	case "bare":
+		tr := mock.NewTransport(nil, false, nil)
+		pl := netty.NewPipeline()
+		e.ch, e.tr = netty.NewChannel()(atomic.AddInt64(&e.nextID, 1), context.Background(), pl, tr, netty.AsyncExecutor()), tr
+		pl.AddLast(netty.InboundHandlerFunc(func(ctx netty.InboundContext, m netty.Message) {
+			buf := make([]byte, 256)
+			if _, err := m.(io.Reader).Read(buf); err != nil {
+				panic(err)
+			}
+		}))
+		pl.ServeChannel(e.ch)
 	case "idle":
 		e.ch, e.tr = newCh("qblock", netty.ReadIdleHandler(time.Second), netty.WriteIdleHandler(time.Second))
 		e.ch.Pipeline().ServeChannel(e.ch)
 	case "holder":
 		e.holder = netty.NewChannelHolder(4)
 	case "bootstrap":
+		e.opts = append(make([]transport.Option, 0, 4), transport.WithAttachment("shared options"))
 		e.factory = &mock.Factory{NewT: func() *mock.Transport { return mock.NewTransport(nil, false, nil) }}
 		e.bs = netty.NewBootstrap(netty.WithTransport(e.factory),
 			netty.WithChildInitializer(func(ch netty.Channel) { c12Pipeline(ch) }), netty.WithClientInitializer(func(ch netty.Channel) { c12Pipeline(ch) }))
@@ -329,6 +346,8 @@ func (e *c12Env) do(op string, g, k int) {
 		_, _ = e.ch.ReadFrom(bytes.NewReader(make([]byte, 1500)))
 	case "write":
 		_ = e.ch.Write(payload)
+	case "badwrite":
+		_ = e.ch.Write(struct{ A int }{g}) // unsupported type: the head handler raises
 	case "trigger":
 		e.ch.Trigger("event")
 	case "close":
@@ -354,7 +373,7 @@ func (e *c12Env) do(op string, g, k int) {
 		if e.prog.Target == "tcp" {
 			url = fmt.Sprintf("tcp://127.0.0.1:%d", e.port)
 		}
-		l := e.bs.Listen(url)
+		l := e.bs.Listen(url, e.opts...)
 		e.lmu.Lock()
 		e.ls = append(e.ls, l)
 		e.lmu.Unlock()
@@ -376,7 +395,7 @@ func (e *c12Env) do(op string, g, k int) {
 		if e.prog.Target == "tcp" {
 			url = fmt.Sprintf("tcp://127.0.0.1:%d", e.port)
 		}
-		_, _ = e.bs.Connect(url)
+		_, _ = e.bs.Connect(url, e.opts...)
 	case "open-channel":
 		tr := mock.NewTransport(nil, false, nil)
 		pl := netty.NewPipeline()
